@@ -50,13 +50,17 @@ InjBase == IF Cardinality(BaseLists) <= 25 THEN BaseLists ELSE RandomSubset(25, 
 WeakOf(a) == UNION {{[a EXCEPT ![i] = w] : w \in (IF Thorough THEN Weak1(a[i], FALSE) ELSE TakeN(Weak1(a[i], FALSE), 6) \cup TakeN(Weak1(a[i], TRUE), 4))} : i \in 1..Len(a)}
              \cup (IF Len(a) >= 2 THEN {[a EXCEPT ![1] = w1, ![2] = w2] : w1 \in TakeN(Weak1(a[1], TRUE), 2), w2 \in TakeN(Weak1(a[2], TRUE), 2)} ELSE {})
 MarkOf(a) == UNION {{[a EXCEPT ![i] = w] : w \in TakeN(MarkPlacements(a[i]), 5) \ {a[i]}} : i \in 1..Len(a)}
+             \* an unknown argument at one position together with a (nested) mark at another
+             \cup UNION {UNION {{[a EXCEPT ![i] = Unk(a[i].ty, NoRf), ![j] = m] : m \in TakeN(MarkNested(a[j], <<"m2">>), 2) \cup {WithMk(a[j], <<"m1">>)}}
+                                : j \in (1..Len(a)) \ {i}} : i \in 1..Len(a)}
              \cup (IF Len(a) >= 2 THEN {[a EXCEPT ![1] = WithMk(a[1], <<"m1">>), ![2] = WithMk(a[2], <<"m2">>)]} ELSE {})
 WBase == IF Cardinality(BaseLists) <= (IF Thorough THEN 200 ELSE 60) THEN BaseLists ELSE RandomSubset(IF Thorough THEN 200 ELSE 60, BaseLists)
 Line(a) ==
   CASE Mode \in {"call", "ref"} -> [k |-> "call", api |-> Api, xs |-> <<[none |-> TRUE]>>, a |-> a, vs |-> <<>>]
     [] Mode = "weak" -> [k |-> "weak", api |-> Api, xs |-> <<[none |-> TRUE]>>, a |-> a, vs |-> SetToSeq(WeakOf(a))]
     [] Mode = "mark" -> [k |-> "mark", api |-> Api, xs |-> <<[none |-> TRUE]>>, a |-> a, vs |-> SetToSeq(MarkOf(a) \cup UNION {MarkOf(w) : w \in TakeN(WeakOf(a), 2)})]
-Src == IF Mode = "ref" THEN BaseLists ELSE IF Mode = "call" THEN BaseLists \cup UNION {Injected(a) : a \in InjBase} ELSE WBase
+NestedUnk(a) == UNION {{[a EXCEPT ![i] = w] : w \in TakeN(Weak1(a[i], TRUE) \ UnkMenuLite(a[i]), 3)} : i \in 1..Len(a)}
+Src == IF Mode = "ref" THEN BaseLists ELSE IF Mode = "call" THEN BaseLists \cup UNION {Injected(a) : a \in InjBase} \cup UNION {NestedUnk(a) : a \in BaseLists} ELSE WBase
 \* RandomSubset makes Src differ between evaluations: evaluate it exactly once
 ASSUME LET sq == SetToSeq(Src) IN
        LET out == [i \in 1..Len(sq) |-> Line(sq[i])] IN
